@@ -3,6 +3,7 @@ package rules
 import (
 	"fmt"
 	"go/ast"
+	"go/constant"
 	"go/token"
 	"go/types"
 	"sort"
@@ -412,6 +413,98 @@ func runRaftWiring(c *core.Ctx) {
 				ctxs++
 			}
 		}
+		return true
+	})
+	// the five contexts of a server have the ids the spec gives its five process sets: srvId + k*NumServers, k = 0..4
+	// (ServerSet, ServerRequestVoteSet, ... are disjoint ranges of width NumServers): monitors, mailboxes and traces key by id
+	wantK := map[string]int64{"AServer": 0, "AServerRequestVote": 1, "AServerAppendEntries": 2, "AServerAdvanceCommitIndex": 3, "AServerBecomeLeader": 4}
+	var srvParam types.Object
+	if sig, ok := fn.Obj.Type().(*types.Signature); ok {
+		for i := 0; i < sig.Params().Len(); i++ {
+			if sig.Params().At(i).Name() == "srvId" {
+				srvParam = sig.Params().At(i)
+			}
+		}
+	}
+	isSrvNum := func(ex ast.Expr) bool { // srvId.AsNumber(), possibly through a local
+		ex = an.ResolveLocal(info, fn.Body(), ex)
+		call, ok := an.Unparen(ex).(*ast.CallExpr)
+		if !ok || !an.IsMethodNamed(an.CalleeFunc(info, call), an.PkgTLA, "Value", "AsNumber") {
+			return false
+		}
+		return an.ObjOf(info, an.Unparen(call.Fun).(*ast.SelectorExpr).X) == srvParam
+	}
+	isNumServers := func(ex ast.Expr) bool { // iface.GetConstant("NumServers")().AsNumber() or c.NumServers, possibly through a local
+		ex = an.ResolveLocal(info, fn.Body(), ex)
+		found := false
+		ast.Inspect(ex, func(k ast.Node) bool {
+			if bl, ok := k.(*ast.BasicLit); ok && bl.Value == `"NumServers"` {
+				found = true
+			}
+			if sel, ok := k.(*ast.SelectorExpr); ok && sel.Sel.Name == "NumServers" {
+				found = true
+			}
+			return true
+		})
+		return found
+	}
+	selfK := func(ex ast.Expr) (int64, bool) {
+		ex = an.ResolveLocal(info, fn.Body(), ex)
+		if srvParam != nil && an.ObjOf(info, ex) == srvParam {
+			return 0, true
+		}
+		call, ok := an.Unparen(ex).(*ast.CallExpr)
+		if !ok || !an.IsFuncNamed(an.CalleeFunc(info, call), an.PkgTLA, "MakeNumber") || len(call.Args) != 1 {
+			return 0, false
+		}
+		be, ok := an.Unparen(call.Args[0]).(*ast.BinaryExpr)
+		if !ok || be.Op != token.ADD {
+			return 0, false
+		}
+		a, b := be.X, be.Y
+		if !isSrvNum(a) {
+			a, b = b, a
+		}
+		if !isSrvNum(a) {
+			return 0, false
+		}
+		if isNumServers(b) {
+			return 1, true
+		}
+		mul, ok := an.Unparen(b).(*ast.BinaryExpr)
+		if !ok || mul.Op != token.MUL {
+			return 0, false
+		}
+		kx, nx := mul.X, mul.Y
+		if !isNumServers(nx) {
+			kx, nx = nx, kx
+		}
+		if !isNumServers(nx) {
+			return 0, false
+		}
+		tv := info.Types[kx]
+		if tv.Value == nil {
+			return 0, false
+		}
+		v, exact := constant.Int64Val(constant.ToInt(tv.Value))
+		return v, exact
+	}
+	ast.Inspect(fn.Body(), func(n ast.Node) bool {
+		call, ok := n.(*ast.CallExpr)
+		if !ok || !an.IsFuncNamed(an.CalleeFunc(info, call), an.PkgDistsys, "NewMPCalContext") || len(call.Args) < 2 {
+			return true
+		}
+		arch := ""
+		if sel, ok := an.Unparen(call.Args[1]).(*ast.SelectorExpr); ok {
+			arch = sel.Sel.Name
+		}
+		want, known := wantK[arch]
+		if !known {
+			return true
+		}
+		k, ok := selfK(call.Args[0])
+		c.Check(ok && k == want, "newServerCtxs:self-id("+arch+")", call.Pos(), fmt.Sprintf("self = srvId + %d*NumServers, as the spec's process set prescribes", want),
+			fmt.Sprintf("the context running %s does not get the id srvId + %d*NumServers the specification gives that process (sets ServerSet, ServerRequestVoteSet, ... are disjoint ranges of width NumServers): two archetypes of one server - or of two servers - share an id, so the monitor, the mailboxes and the trace confuse them", arch, want))
 		return true
 	})
 	c.Check(ctxs >= 5, "newServerCtxs:all-contexts-use-shared-resources", fn.Pos(), fmt.Sprintf("%d contexts are configured through genResources", ctxs), fmt.Sprintf("only %d of the five server contexts are configured through the shared-resource closure", ctxs))
